@@ -1,7 +1,7 @@
 CONSTANTS
   Mode = "pc"
   NStart = 1
-  LsnOf <- One
+  NLsn = 1
   NShut = 1
   NConns = 0
   MaxReq = 0
